@@ -11,9 +11,9 @@ from hypothesis import strategies as st
 from vlib.ref import c12_paths as ref
 from vlib.ref.c12_paths import KINDS, PHASES, SITES, State, accepted, Broken
 
-STR_VALUES = ['d1', 'd2', 'f', 'd', '1', 'd1/d2', 'w1', 'a b', 'x', 'g', 'n']
+STR_VALUES = ['d1', 'd2', 'f', 'd', '1', 'd1/d2', 'w1', 'a b', 'x', 'g', 'n', '/d2', '/']
 READ_SITES_ANY = ['contents_of', 'dir_contents_of', 'existing', 'exe']
-ABS_DIRS = ['{HOME}/cs', '{HOME}/hd2', '{HOME}/cs/inc', '{ROOT}/absarea', '{ROOT}/absarea/d1']
+ABS_DIRS = ['{HOME}/cs', '{HOME}/hd2', '{HOME}/cs/inc', '{ROOT}/absarea', '{ROOT}/absarea/d1', '{HOME}/cs/inc/deep']
 
 
 def _under(loc, base):
@@ -38,10 +38,31 @@ def _quote_style(draw, token_has_space, has_refs):
     return draw(st.sampled_from(opts))
 
 
-def _fragmentize(draw, name, S, allow=True):
+def _fragmentize(draw, name, S, allow=True, gen=None):
     """replace up to two occurrences of defined string symbol values by references"""
     frags = [['l', name]] if name else []
-    if not allow or not S.strs or not name:
+    if not allow or not name:
+        return frags
+    if gen is not None and draw(st.integers(0, 3)) == 0:
+        # make a string symbol for a piece of the name (a component, a prefix of one, or a part with the separator)
+        pieces = set()
+        comps = name.split('/')
+        for c in comps:
+            if c and c not in ('.', '..'):
+                pieces.add(c)
+                if len(c) > 1:
+                    pieces.add(c[:1])
+                    pieces.add(c[1:])
+        for a, b in zip(comps, comps[1:]):
+            if a and b and a not in ('.', '..') and b not in ('.', '..'):
+                pieces.add(a + '/' + b)
+                pieces.add('/' + b)
+        pieces = sorted(p for p in pieces if not (name.startswith(p) and p.startswith('/')))
+        if pieces:
+            val = draw(st.sampled_from(pieces))
+            if val not in S.strs.values():
+                gen.new_str(val)
+    if not S.strs:
         return frags
     for _ in range(draw(st.sampled_from([0, 0, 1, 1, 2]))):
         cands = []
@@ -49,9 +70,11 @@ def _fragmentize(draw, name, S, allow=True):
             if t != 'l':
                 continue
             for sname, sval in sorted(S.strs.items()):
-                if ref.is_abs(sval) or not sval:
+                if not sval or sval.startswith('{'):
                     continue
                 pos = v.find(sval)
+                if pos == 0 and fi == 0 and sval.startswith('/'):
+                    continue  # would make the FILE-NAME start with a string symbol that holds an absolute path
                 if pos >= 0:
                     cands.append((fi, sname, pos, len(sval)))
         if not cands:
@@ -87,6 +110,13 @@ def _decorate(draw, suffix, is_dir, keep_basename):
     if style == 4 and is_dir and not keep_basename:
         return suffix + '/'
     return suffix
+
+
+def _leaf_for(site, n):
+    """a name that exists in every fixture base with the type the site wants (or a fresh one for destinations)"""
+    if SITES[site]['dest']:
+        return 'n%d' % n
+    return {'cd': 'd1', 'dir-contents': 'd1', 'dir_contents_of': 'd1', 'exe': 'x1', 'act_exe': 'x1'}.get(site, 'f1')
 
 
 class Gen:
@@ -147,7 +177,7 @@ class Gen:
     def base_loc(self, cand, inc=False):
         _, rel, lead, pv, absdir = cand
         if rel == 'here':
-            return 'H', (ref.INC_DIR if inc else ref.CASE_DIR)
+            return 'H', ref.HERE_DIRS[int(inc or 0)]
         try:
             return self.S.locate(pv)
         except Broken:
@@ -160,7 +190,7 @@ class Gen:
         suffix = _decorate(draw, suffix, is_dir, keep_basename)
         if lead is not None:
             name = ('/' + suffix) if suffix else ''
-            frags = _fragmentize(draw, name, self.S)
+            frags = _fragmentize(draw, name, self.S, gen=self)
             if frags and not (frags[0][0] == 'l' and frags[0][1].startswith('/')):
                 frags = [['l', name]]
             token = '@[x]@' + name
@@ -178,7 +208,7 @@ class Gen:
                     'q': _quote_style(draw, ' ' in name, len(frags) > 1 or frags[0][0] == 's')}
         if not suffix:
             suffix = '' if (may_be_empty and rel is not None and draw(st.booleans())) else '.'
-        frags = _fragmentize(draw, suffix, self.S)
+        frags = _fragmentize(draw, suffix, self.S, gen=self)
         has_refs = any(t == 's' for t, _ in frags)
         return {'rel': rel, 'lead': None, 'name': frags, 'q': _quote_style(draw, ' ' in suffix, has_refs)}
 
@@ -278,27 +308,36 @@ class Gen:
         _, rel, lead, pv, absdir = cand
         if lead is not None:
             name = '/' + suffix
-            frags = _fragmentize(draw, name, self.S)
+            frags = _fragmentize(draw, name, self.S, gen=self)
             if not (frags[0][0] == 'l' and frags[0][1].startswith('/')):
                 frags = [['l', name]]
             return {'rel': None, 'lead': lead, 'name': frags, 'q': _quote_style(draw, ' ' in name, True)}
-        frags = _fragmentize(draw, suffix, self.S)
+        frags = _fragmentize(draw, suffix, self.S, gen=self)
         has_refs = any(t == 's' for t, _ in frags)
         return {'rel': rel, 'lead': None, 'name': frags, 'q': _quote_style(draw, ' ' in suffix, has_refs)}
 
     # ---- regular operations --------------------------------------------------------------------------------------
     def op_defstr(self):
-        self.new_str(self.draw(st.sampled_from(STR_VALUES)))
+        draw = self.draw
+        plain = sorted(n for n in self.S.strs if n not in self.S.str_pathref and not ref.is_abs(self.S.strs[n])
+                       and len(self.S.strs[n]) < 12)
+        if plain and draw(st.integers(0, 2)) == 0:
+            # a string symbol made from another one
+            self.n_str += 1
+            self.emit({'k': 'defstr', 'ph': self.phase, 'name': 'S%d' % self.n_str,
+                       'val': draw(st.sampled_from(['', '/d2', '1', '/f2', 'd1'])), 'sref': draw(st.sampled_from(plain))})
+            return
+        self.new_str(draw(st.sampled_from(STR_VALUES)))
 
     def op_def(self, chain=2):
         draw = self.draw
         if self.force is not None:
             chain = 0
-        inc = draw(st.integers(0, 3)) == 0
+        inc = draw(st.sampled_from([0, 0, 0, 0, 1, 2]))
         cands = self.bases('def', self.phase)
         cand = self.pick_base(cands)
         if cand[1] == 'here':
-            inc = draw(st.booleans())
+            inc = draw(st.sampled_from([0, 1, 1, 2]))
         base = self.base_loc(cand, inc)
         if base is None:
             return
@@ -331,7 +370,7 @@ class Gen:
         expr = self.mk_expr(cand, suffix, is_dir=(t == 'd'))
         self.n_path += 1
         name = 'P%d' % self.n_path
-        self.emit({'k': 'def', 'ph': self.phase, 'name': name, 'expr': expr, 'inc': draw(st.integers(0, 3)) == 0})
+        self.emit({'k': 'def', 'ph': self.phase, 'name': name, 'expr': expr, 'inc': draw(st.sampled_from([0, 0, 0, 1, 2]))})
         for _ in range(draw(st.sampled_from([1, 1, 2]))):
             self.op_cd()
         self.force = name
@@ -510,7 +549,7 @@ class Gen:
         """append one irregular group; returns its class label or None"""
         draw = self.draw
         cls = draw(st.sampled_from(['bad-option', 'bad-symbol', 'bad-symbol', 'bad-symbol', 'abs+rel', 'abs+rel',
-                                    'abs-dest', 'lead+rel', 'here']))
+                                    'abs-dest', 'lead+rel', 'here', 'str-concat']))
         S = self.S
         ph = self.phase
         n0 = len(self.ops)
@@ -522,7 +561,7 @@ class Gen:
                 if not bad:
                     return None
                 k = draw(st.sampled_from(bad))
-                name = 'f1' if not SITES[site]['dest'] else 'n%d' % n0
+                name = _leaf_for(site, n0)
                 expr = {'rel': k, 'lead': None, 'name': [['l', name]], 'q': draw(st.sampled_from([0, 1, 2]))}
                 self.emit_irregular(self.use_op(site, expr))
                 return cls
@@ -537,7 +576,7 @@ class Gen:
                 # first link
                 self.n_path += 1
                 sym = 'P%d' % self.n_path
-                inc = draw(st.booleans())
+                inc = draw(st.sampled_from([0, 1, 2]))
                 if k == 'abs':
                     e = {'rel': None, 'lead': None, 'name': [['l', draw(st.sampled_from(ABS_DIRS))]], 'q': 0}
                 elif k == 'here':
@@ -557,9 +596,9 @@ class Gen:
                         e = {'rel': None, 'lead': sym, 'name': [['l', '/' + comp]], 'q': 0}
                     else:
                         e = {'rel': None, 'lead': sym, 'name': [], 'q': 0}
-                    self.emit({'k': 'def', 'ph': ph, 'name': nsym, 'expr': e, 'inc': draw(st.booleans())})
+                    self.emit({'k': 'def', 'ph': ph, 'name': nsym, 'expr': e, 'inc': draw(st.sampled_from([0, 0, 1, 2]))})
                     sym = nsym
-                name = 'f1' if not SITES[site]['dest'] else 'n%d' % n0
+                name = _leaf_for(site, n0)
                 form = draw(st.sampled_from(['rel', 'lead', 'plain']))
                 if form == 'rel':
                     expr = {'rel': 'sym:' + sym, 'lead': None, 'name': _fragmentize(draw, name, S), 'q': 0}
@@ -569,6 +608,42 @@ class Gen:
                     expr = {'rel': None, 'lead': sym, 'name': [], 'q': 0}
                 self.emit_irregular(self.use_op(site, expr))
                 return cls + ':%d' % depth
+            if cls == 'str-concat':
+                # a path symbol routed through a string symbol: def string S = "@[P]@/x" ; <use> @[S]@/y
+                site = self.site_for_phase()
+                syms = [n for n in sorted(S.paths) if S.paths[n].kind != 'cd' and n not in self.tainted]
+                sym = draw(st.sampled_from(syms))
+                pv = S.paths[sym]
+                base = self.base_loc((1, None, sym, pv, None))
+                if base is None or S.kind_at(base) != 'd':
+                    return None
+                dest = SITES[site]['dest']
+                if dest:
+                    ents = [e for e in self.existing_under(base, 'd')]
+                else:
+                    want = {'cd': 'd', 'dir-contents': 'd', 'exe': 'f', 'contents_of': 'f', 'contents': 'f'}.get(
+                        site, 'any')
+                    pred = (lambda k_, e: k_[1].endswith('x1')) if site == 'exe' else (
+                        lambda k_, e: not k_[1].endswith('x1'))
+                    ents = [e for e in self.existing_under(base, want, pred) if e[0]]
+                if not ents:
+                    return None
+                suffix, t = draw(st.sampled_from(ents))
+                if dest:
+                    suffix = ref._j(suffix, 'n%d' % n0)
+                cut = draw(st.integers(0, suffix.count('/')))
+                parts = suffix.split('/')
+                s_part, rest = '/'.join(parts[:cut]), '/'.join(parts[cut:])
+                self.n_str += 1
+                sname = 'S%d' % self.n_str
+                self.emit({'k': 'defstr', 'ph': ph, 'name': sname, 'val': ('/' + s_part) if s_part else '',
+                           'pref': sym})
+                frags = [['s', sname]] + ([['l', '/' + rest]] if rest else [])
+                if site == 'cd' and base[0] != 'SB':
+                    return None
+                expr = {'rel': None, 'lead': None, 'name': frags, 'q': draw(st.sampled_from([0, 1]))}
+                self.emit_irregular(self.use_op(site, expr))
+                return cls
             if cls == 'abs-dest':
                 site = draw(st.sampled_from(['file', 'dir', 'copy_dst']))
                 d = draw(st.sampled_from(['{HOME}/cs', '{HOME}/hd2', '{HOME}/cs/hd', '{ROOT}/absarea',
@@ -591,7 +666,7 @@ class Gen:
                 opts = [k for k in KINDS if acc.get(k) is True]
                 if not syms or not opts:
                     return None
-                name = 'f1' if not SITES[site]['dest'] else 'n%d' % n0
+                name = _leaf_for(site, n0)
                 expr = {'rel': draw(st.sampled_from(opts)), 'lead': draw(st.sampled_from(syms)),
                         'name': [['l', '/' + name]], 'q': draw(st.sampled_from([0, 1]))}
                 self.emit_irregular(self.use_op(site, expr))
@@ -650,7 +725,7 @@ class Gen:
             return 'abs+rel:direct:' + via
         self.n_path += 1
         sym = 'P%d' % self.n_path
-        self.ops.append({'k': 'def', 'ph': ph, 'name': sym, 'expr': expr, 'inc': draw(st.booleans())})
+        self.ops.append({'k': 'def', 'ph': ph, 'name': sym, 'expr': expr, 'inc': draw(st.sampled_from([0, 0, 1, 2]))})
         self.tainted.add(sym)
         rest = leaf if split == 'dir' else ''
         form = draw(st.sampled_from(['rel', 'lead'])) if rest else 'lead'
@@ -671,7 +746,8 @@ WEIGHTED_KINDS = (['def'] * 7 + ['defstr'] * 2 + ['cd'] * 3 + ['cdseq'] * 2 + ['
 @st.composite
 def cases(draw, tier='quick', irregular_rate=3):
     """irregular_rate: one case in `irregular_rate` ends with an irregular use (0 = never)"""
-    conf = {'home': draw(st.sampled_from([0, 0, 1, 2])), 'act_home': draw(st.sampled_from([0, 0, 1, 2]))}
+    conf = {'home': draw(st.sampled_from([0, 0, 1, 2])), 'act_home': draw(st.sampled_from([0, 0, 1, 2])),
+            'inv': draw(st.sampled_from([0, 0, 0, 1, 2])), 'cinc': draw(st.sampled_from([0, 0, 1]))}
     g = Gen(draw, conf, tier)
     n = draw(st.integers(1, 12 if tier == 'quick' else 16))
     phase_idx = sorted(draw(st.lists(st.sampled_from([0, 0, 0, 1, 2, 2, 3]), min_size=n, max_size=n)))
@@ -748,7 +824,7 @@ def _dest_case(form, ph, how, n):
             e = {'rel': 'here', 'lead': None, 'name': [['l', '.']], 'q': 0}
         else:
             e = {'rel': k, 'lead': None, 'name': [['l', '.']], 'q': 0}
-        ops.append({'k': 'def', 'ph': def_ph, 'name': 'P1', 'expr': e, 'inc': bool(n % 3 == 0)})
+        ops.append({'k': 'def', 'ph': def_ph, 'name': 'P1', 'expr': e, 'inc': [1, 0, 2, 0, 0, 0][n % 6]})
         sym = 'P1'
         # the chain walks d1 / d2 where it adds components, so that existing targets exist below it
         comps = ['d1', 'd2']
@@ -781,4 +857,5 @@ def _dest_case(form, ph, how, n):
     else:
         ops.append({'k': 'copy', 'ph': ph, 'src': {'rel': 'home', 'lead': None, 'name': [['l', 'f1']], 'q': 0},
                     'dst': expr})
-    return {'conf': {'home': n % 3, 'act_home': (n // 3) % 3}, 'act': {'k': 'plain'}, 'ops': ops, 'irr': 'matrix'}
+    return {'conf': {'home': n % 3, 'act_home': (n // 3) % 3, 'inv': (n // 5) % 3, 'cinc': (n // 7) % 2},
+            'act': {'k': 'plain'}, 'ops': ops, 'irr': 'matrix'}
